@@ -178,7 +178,7 @@ def oracle_c02(run: Runner, s: core.Stream, pr, r):
     if r["status"] != "ok" or r.get("nodes") is None:
         return
     for n in r["nodes"]:
-        if n["run"] is None:
+        if n["run"] is None or (n.get("not_emitted") and "label_value" not in n):
             continue
         # SymbolNode is skipped by the label pass (its first pc_after call belongs to the symbol pass, whose
         # addresses are not used for anything)
@@ -208,7 +208,7 @@ def oracle_c02(run: Runner, s: core.Stream, pr, r):
         if n["cls"] == "RelocationAddressNode":
             relocated = True
             continue
-        if n["cls"] in ("LabelNode", "BinaryNode") and started and not relocated:
+        if n["cls"] in ("LabelNode", "BinaryNode") and started and not relocated and n.get("run") is not None:
             nxt = own_offsets(r)
             # only when a byte is emitted after the label before the next position directive
             follows = False
@@ -288,6 +288,8 @@ def oracle_c03(run: Runner, s: core.Stream, pr, r):
     E = None   # Spec run address of the next statement (None = no claim yet / any more)
     for n in r["nodes"]:
         if n["run"] is None:
+            if n.get("not_emitted") and not n.get("bytes") and n["cls"] not in ("CodePositionNode", "RelocationAddressNode"):
+                continue
             return
         if n["cls"] == "CodePositionNode":
             p = run.spec_phys(pr, n.get("target"))
